@@ -488,8 +488,8 @@ def unsupported_cases():
     out = []
     for bt in BAD_TYPES:
         for k, nest in enumerate(TYPE_NESTS):
-            if k > 0 and bt not in ('u64', '(u32, String)', 'isize'):
-                continue          # every 64-bit name alone; the nestings with three of the constructs
+            if k > 0 and bt not in ('u64', '(u32, String)', 'isize') and os.environ.get('VERIF_TIER') != 'thorough':
+                continue          # every 64-bit name alone; the nestings with three of the constructs (thorough tier: all of them)
             ty = nest.replace('{X}', bt)
             tag = '%s@%d' % (bt, k)
             for skip in ('#[serde(skip)]', '#[typeshare(skip)]'):
@@ -607,7 +607,8 @@ def scenario_unsupported(exe, mode_arg, payload):
     fields, variant payloads, alias targets, newtypes and through serialized_as on fields / items / aliases; tuple structs and tuple
     variants with several fields; serde(flatten) on struct and struct-variant fields; data-carrying enums lacking tag or content;
     tag / content on unit enums; 15 const initialisers that are not integer literals) x 6 languages, each in one of three output modes
-    (fresh file, existing file, folder with a second supported crate; rotated per case, all three for TypeScript): exit code non-zero,
+    (fresh file, existing file, folder with a second supported crate; rotated per case, all three for TypeScript; thorough tier: every 64-bit name in
+    every nesting shape and every case in all three modes for all languages): exit code non-zero,
     an error message, and the output path absent resp. byte- and mtime-identical; for field- and variant-level constructs the same
     source with the construct under serde(skip) / typeshare(skip) must succeed; accepted const initialisers must carry their value."""
     if mode_arg == 'check':
@@ -624,7 +625,7 @@ def scenario_unsupported(exe, mode_arg, payload):
     modes = ['file', 'file-existing', 'folder']
     for i, (name, bad, good) in enumerate(cases):
         for j, (lang, largs) in enumerate(UNSUP_LANGS):
-            ms = modes if (lang == 'typescript' and (i % 7 == 0 or not name[0:5] in ('field', 'varia', 'alias', 'newty', 'seria'))) else [modes[(i + j) % 3]]
+            ms = modes if (os.environ.get('VERIF_TIER') == 'thorough' or (lang == 'typescript' and (i % 7 == 0 or not name[0:5] in ('field', 'varia', 'alias', 'newty', 'seria')))) else [modes[(i + j) % 3]]
             for mo in ms:
                 jobs.append({'case': name, 'bad': bad, 'good': good, 'lang': lang, 'largs': largs, 'mode': mo})
     def one(job):
